@@ -101,6 +101,17 @@ package canonicalizer
 //@   ensures result0 == u && result1 == nil && wf(u)   [C02]
 //@   ensures p.removeFragment ==> u.fragment == nil   [C16]
 //@   ensures (p.removePort && u.host != nil && *u.host != "" && u.scheme != "file") ==> u.port == nil   [C16]
+//@   ensures (p.removeUserInfo && u.host != nil && *u.host != "" && u.scheme != "file") ==> (u.username == "" && u.password == "")   [C16 remove-user-info]
+//@   ensures (!p.repeatedPercentDecoding && p.sortQuery == NoSort) ==> (u.scheme == old(u.scheme) && u.host == old(u.host) && u.path == old(u.path)
+//@           && u.path.opaque == old(u.path.opaque) && len(u.path.p) == old(len(u.path.p)) && u.query == old(u.query) && u.searchParams == old(u.searchParams))   [C16 other-components-untouched]
+//@   ensures (!p.repeatedPercentDecoding && p.sortQuery == NoSort && !p.removePort) ==> (u.port == old(u.port) && u.decodedPort == old(u.decodedPort))   [C16 other-components-untouched]
+//@   ensures (!p.repeatedPercentDecoding && p.sortQuery == NoSort && !p.removeUserInfo) ==> (u.username == old(u.username) && u.password == old(u.password))   [C16 other-components-untouched]
+//@   ensures (!p.repeatedPercentDecoding && p.sortQuery == NoSort && !p.removeFragment) ==> (u.fragment == old(u.fragment) && u.path.p == old(u.path.p))   [C16 other-components-untouched]
+//@   ensures (!p.repeatedPercentDecoding && p.sortQuery == NoSort && !p.removePort && !p.removeUserInfo && !p.removeFragment) ==> sameUrl(u)   [C16 no-options-identity]
+//@   ensures (p.sortQuery == SortKeys) ==> (u.searchParams != nil && (forall a int, b int :: (0 <= a && a < b && b < len(u.searchParams.params)) ==>
+//@           !(u.searchParams.params[b].Name < u.searchParams.params[a].Name)))   [C16 sort-query-by-name]
+//@   ensures (p.sortQuery == SortParameter) ==> (u.searchParams != nil && (forall a int, b int :: (0 <= a && a < b && b < len(u.searchParams.params)) ==>
+//@           !(u.searchParams.params[b].Name + u.searchParams.params[b].Value < u.searchParams.params[a].Name + u.searchParams.params[a].Value)))   [C16 sort-query-by-name-value]
 
 //@ func (*profile).Canonicalize$1
 //@   requires pair != nil
